@@ -87,6 +87,7 @@ struct Worker {
     rec: Arc<Rec>,
     errs: SharedErrs,
     fail_start: bool,
+    fail_pre_stop: bool,
 }
 
 #[derive(Debug)]
@@ -132,7 +133,7 @@ impl Actor for Worker {
 
     async fn pre_stop(&self, _myself: &Mailbox<Self>, _state: &mut ()) -> Result<(), String> {
         self.rec.events.lock().unwrap().push(Ev::PreStop);
-        Ok(())
+        if self.fail_pre_stop { Err("pre-stop failed".to_string()) } else { Ok(()) }
     }
 
     async fn post_stop(&self, _myself: &Mailbox<Self>, _state: &mut ()) -> Result<(), String> {
@@ -227,6 +228,9 @@ struct Plan {
     name: Option<String>,
     capacity: Option<usize>,
     fail_start: bool,
+    fail_pre_stop: bool,
+    /// a second spawn under the same name is issued while the first is still starting
+    dup_race: bool,
 }
 
 const BARRIER: u32 = 9_000;
@@ -261,6 +265,8 @@ fn actors() -> RunResult {
             name: sim::flip("actor.named", 1, 2).then(|| format!("actor-{a}")),
             capacity: [None, Some(1), Some(2), Some(3)][sim::choose("actor.capacity", 4)],
             fail_start: a > 0 && sim::flip("actor.fails.to.start", 1, 6),
+            fail_pre_stop: sim::flip("actor.fails.in.pre_stop", 1, 5),
+            dup_race: sim::flip("actor.duplicate.spawn.races", 1, 2),
         })
         .collect();
     let clients = sim::choose("client.threads", 3);
@@ -299,7 +305,8 @@ fn actors() -> RunResult {
                 let spawn = |a: usize, second: bool| {
                     let (rec, errs, plan) = (if second { Arc::new(Rec::default()) } else { recs[a].clone() }, errs.clone(), plans[a].clone());
                     let fail_start = plan.fail_start && !second;
-                    let mut s = cluster.spawn(move || Worker { slot: a, rec, errs, fail_start }, ());
+                    let fail_pre_stop = plan.fail_pre_stop && !second;
+                    let mut s = cluster.spawn(move || Worker { slot: a, rec, errs, fail_start, fail_pre_stop }, ());
                     if let Some(n) = &plan.name {
                         s = s.with_name(n.clone());
                     }
@@ -312,7 +319,23 @@ fn actors() -> RunResult {
                 let mut mailboxes: Vec<Option<Mailbox<Worker>>> = Vec::new();
                 let mut handles = Vec::new();
                 for (a, plan) in plans.iter().enumerate() {
-                    match compio_runtime::time::timeout(CALL_BOUND, spawn(a, false).into_future()).await {
+                    let first = spawn(a, false).into_future();
+                    if let (Some(n), true) = (&plan.name, plan.dup_race) {
+                        // the name is reserved from now on, although the actor has not started yet
+                        match compio_runtime::time::timeout(CALL_BOUND, spawn(a, true).into_future()).await {
+                            Ok(Err(SpawnError::NameTaken(_))) => {}
+                            Ok(Ok((m2, _))) => {
+                                m2.stop();
+                                errs.push("name", format!("a second actor was spawned under the name {n:?} while the spawn of actor {a} under that name was under way"));
+                            }
+                            Ok(Err(e)) => errs.push("name", format!("a second spawn under the name {n:?}, reserved by a spawn under way, failed with {e:?} instead of NameTaken")),
+                            Err(_) => errs.push("spawn-hangs", format!("a second spawn under the reserved name {n:?} did not return")),
+                        }
+                        if cluster.lookup::<Worker, _>(n.clone()).is_some() && recs[a].events.lock().unwrap().is_empty() {
+                            errs.push("name", format!("the name {n:?} resolves although the actor spawned under it has not run pre_start yet"));
+                        }
+                    }
+                    match compio_runtime::time::timeout(CALL_BOUND, first).await {
                         Ok(Ok((m, h))) => {
                             if plan.fail_start {
                                 errs.push("lifecycle", format!("actor {a}: pre_start failed, the spawn succeeded nevertheless"));
@@ -495,6 +518,25 @@ fn actors() -> RunResult {
                             errs.push("lost-message", format!("actor {a} was neither stopped nor failed and answered a later call; of client {c}'s accepted messages {accepted:?} it handled only {seen:?}"));
                         }
                     }
+                    // once stop() has returned to a client, the mailbox is closed for that client's later operations
+                    for c in 0..=clients {
+                        let mut stopped_at: Option<u32> = None;
+                        for s in mine().filter(|s| s.client == c) {
+                            match (s.op, outcome(s.id), stopped_at) {
+                                (Op::Stop, Some(Outcome::Stopped(again)), Some(first)) if again => {
+                                    errs.push("stop", format!("actor {a}: client {c} stopped it in step {first}; its stop() in step {} returned true again", s.id))
+                                }
+                                (Op::Stop, Some(Outcome::Stopped(_)), None) => stopped_at = Some(s.id),
+                                (Op::Send(_) | Op::SendFail | Op::SendStopSelf, Some(Outcome::Accepted), Some(first)) => {
+                                    errs.push("accepted-after-stop", format!("actor {a}: client {c} called stop() in step {first}; its message of step {} was accepted afterwards (handled: {})", s.id, handled.contains(&s.id)))
+                                }
+                                (Op::Ask | Op::Mute, Some(o @ (Outcome::Reply(_) | Outcome::NoReply | Outcome::Hung)), Some(first)) => {
+                                    errs.push("accepted-after-stop", format!("actor {a}: the main task called stop() in step {first}; its call of step {} was accepted afterwards and ended with {o:?} instead of Closed", s.id))
+                                }
+                                _ => {}
+                            }
+                        }
+                    }
                     // calls
                     for s in mine() {
                         match (s.op, outcome(s.id)) {
@@ -515,7 +557,8 @@ fn actors() -> RunResult {
                     let failing = handled.iter().find(|id| steps.iter().any(|s| s.id == **id && matches!(s.op, Op::SendFail)));
                     match (&exit, failing) {
                         (Some(ActorExit::Failed(e)), Some(id)) if *e == format!("failed at {id}") => {}
-                        (Some(ActorExit::Stopped), None) => {}
+                        (Some(ActorExit::Failed(e)), None) if plans[a].fail_pre_stop && e == "pre-stop failed" => {}
+                        (Some(ActorExit::Stopped), None) if !plans[a].fail_pre_stop => {}
                         (None, _) => {}
                         (Some(e), f) => errs.push("exit", format!("actor {a} exited with {e:?}; the first failing handler it ran: {f:?}")),
                     }
@@ -656,7 +699,7 @@ fn groups() -> RunResult {
                 let mut handles = Vec::new();
                 for k in 0..members {
                     let (rec, errs2) = (recs[k].clone(), errs.clone());
-                    let mut s = cluster.spawn(move || Worker { slot: k, rec, errs: errs2, fail_start: false }, ()).with_name(format!("member-{k}"));
+                    let mut s = cluster.spawn(move || Worker { slot: k, rec, errs: errs2, fail_start: false, fail_pre_stop: false }, ()).with_name(format!("member-{k}"));
                     if let Some(c) = caps[k] {
                         s = s.with_capacity(NonZeroUsize::new(c).unwrap());
                     }
